@@ -7,6 +7,7 @@ import re
 
 from ..core import Run, AnalysisError, dotted, norm, PKG, Mod
 from ..dim import World
+from ..pyreader import PyReader, Raised
 from ..flow import CFG, Fn, node_calls
 
 EXPLANATION = (
@@ -36,7 +37,6 @@ BUILTINS = set(dir(builtins))
 EXCLUDED_DIRS = ("core", )
 # (module, function path, sha256[:16] of ast.dump of the function as of the tree the replica was derived from)
 REPLICA_ANCHORS = [
-    ("symplyphysics.docs.patch", "patch_sympy_evaluate", "b7ce6be4fff4f5f5"),
     ("symplyphysics.docs.parse", "find_members_and_functions", "1becaf93e0dab741"),
 ]
 
@@ -91,46 +91,134 @@ def walked_modules(run: Run) -> list[Mod]:
     return out
 
 
-def kept_prefix(tree: ast.Module) -> tuple[list[ast.stmt], list[int]]:
-    """Replica of docs.patch.patch_sympy_evaluate: statements kept (original nodes; the inserted import is represented by None)
-    and the indices (into the kept list) of members executed with evaluation disabled."""
-    body: list = list(tree.body)
-    body.insert(1, None)
-    current = -1
-    disabled: list[int] = []
-    last = 0
-    for idx, stmt in enumerate(body):
-        if stmt is None:
-            continue
-        if isinstance(stmt, ast.FunctionDef):
-            if ast.get_docstring(stmt) is None:
-                continue
-            current = idx
-            last = idx
-            continue
-        if isinstance(stmt, ast.Assign):
-            for t in stmt.targets:
-                if isinstance(t, ast.Name) and not t.id.startswith("_"):
-                    current = idx
-            continue
-        if isinstance(stmt, ast.Expr) and current >= 0 and isinstance(stmt.value, ast.Constant):
-            last = idx
-            s = str(stmt.value.value)
-            if ":laws:sympy-eval::" in s or (":laws:symbol::" not in s and ":laws:latex::" not in s):
-                continue
-            disabled.append(current)
-    return body[0:last + 1], disabled
+class AstReader(PyReader):
+    """pyreader over CONCRETE syntax-tree objects: the documentation patcher is a pure function from a module's syntax tree to a syntax tree, and its
+    inputs are the source files of this very tree. Attribute reads/stores, isinstance, node construction and ast.get_docstring are the real ones of the
+    standard library; the control flow is that of the patcher's source."""
+
+    def global_value(self, n):
+        if isinstance(n, ast.Name) and n.id == "ast" and "ast" not in self.functions:
+            return ("module", "ast")
+        return super().global_value(n)
+
+    def hook_attr(self, base, attr, n):
+        if base == ("module", "ast"):
+            if hasattr(ast, attr):
+                return ("astattr", attr)
+            raise Raised("AttributeError", getattr(n, "lineno", 0))
+        if isinstance(base, ast.AST):
+            if hasattr(base, attr):
+                return getattr(base, attr)
+            raise Raised("AttributeError", getattr(n, "lineno", 0))
+        return NotImplemented
+
+    def store_attr(self, base, attr, value, n) -> bool:
+        if isinstance(base, ast.AST):
+            setattr(base, attr, value)
+            return True
+        return False
+
+    def _classes(self, v, n) -> tuple:
+        if isinstance(v, tuple) and len(v) == 2 and v[0] == "astattr" and isinstance(getattr(ast, v[1]), type):
+            return (getattr(ast, v[1]), )
+        if isinstance(v, list):
+            return tuple(c for x in v for c in self._classes(x, n))
+        self.fail(n, "class expression")
+
+    def hook_method(self, base, attr, args, kwargs, n):
+        if base == ("module", "ast"):
+            return self._ast_call(attr, args, kwargs, n)
+        return NotImplemented
+
+    def _ast_call(self, name, args, kwargs, n):
+        obj = getattr(ast, name, None)
+        if isinstance(obj, type) and issubclass(obj, ast.AST):
+            return obj(*args, **kwargs)
+        if name == "get_docstring" and len(args) >= 1 and isinstance(args[0], ast.AST):
+            try:
+                return ast.get_docstring(args[0], *args[1:], **kwargs)
+            except TypeError:
+                raise Raised("TypeError", getattr(n, "lineno", 0))
+        if name in ("fix_missing_locations", "copy_location", "increment_lineno") and args:
+            return args[0]
+        self.fail(n, f"ast.{name} is outside the supported subset")
+
+    def hook_call(self, n, env, fns):
+        f = dotted(n.func) or ""
+        name = f.split(".")[-1]
+        if name == "isinstance" and len(n.args) == 2:
+            v = self.ev(n.args[0], env, fns)
+            return isinstance(v, self._classes(self.ev(n.args[1], env, fns), n))
+        if name == "getattr" and len(n.args) in (2, 3):
+            v, a = self.ev(n.args[0], env, fns), self.ev(n.args[1], env, fns)
+            if isinstance(v, ast.AST) and isinstance(a, str):
+                if hasattr(v, a):
+                    return getattr(v, a)
+                if len(n.args) == 3:
+                    return self.ev(n.args[2], env, fns)
+                raise Raised("AttributeError", getattr(n, "lineno", 0))
+        if name == "hasattr" and len(n.args) == 2:
+            v, a = self.ev(n.args[0], env, fns), self.ev(n.args[1], env, fns)
+            if isinstance(v, ast.AST) and isinstance(a, str):
+                return hasattr(v, a)
+        if name == "str" and len(n.args) == 1 and not isinstance(n.func, ast.Attribute):
+            v = self.ev(n.args[0], env, fns)
+            if v is None or isinstance(v, (str, int, float, bool, bytes, complex)) or v is Ellipsis:
+                return str(v)
+        if name == "any" and len(n.args) == 1:
+            v = self.ev(n.args[0], env, fns)
+            if isinstance(v, list):
+                return any(self.truthy(x, n) for x in v)
+        if name == "all" and len(n.args) == 1:
+            v = self.ev(n.args[0], env, fns)
+            if isinstance(v, list):
+                return all(self.truthy(x, n) for x in v)
+        return NotImplemented
+
+    def ev(self, n, env, fns):
+        if isinstance(n, ast.Constant) and not isinstance(n.value, (bool, int, str, float)) and n.value is not None:
+            return n.value
+        if isinstance(n, ast.Constant) and isinstance(n.value, float):
+            return n.value
+        return super().ev(n, env, fns)
+
+
+_PATCH_READER: dict = {}
+
+
+def kept_prefix(tree: ast.Module, run: Run = None) -> tuple[list, list[int]]:
+    """What docs.patch.patch_sympy_evaluate keeps of a module, by EVALUATING the patcher's source on the module's syntax tree (AstReader): the statements of
+    the patched body (original nodes; the import the patcher inserts is represented by None, its disable/reset calls are left out) and [] (kept for the
+    callers' signature)."""
+    key = id(run.src) if run is not None else 0
+    if key not in _PATCH_READER:
+        _PATCH_READER.clear()
+        _PATCH_READER[key] = run.src.need(DOCS + "patch").tree
+    ptree = _PATCH_READER[key]
+    R = AstReader(ptree, "docs/patch.py", depth_limit=8)
+    shell = ast.Module(body=list(tree.body), type_ignores=[])
+    original = {id(s_) for s_ in tree.body}
+    try:
+        out = R.call("patch_sympy_evaluate", [shell])
+    except Raised as r:
+        raise AnalysisError(f"C19: docs.patch.patch_sympy_evaluate raises {r.exc} on a catalogue module")
+    if not isinstance(out, ast.Module):
+        raise AnalysisError("C19: docs.patch.patch_sympy_evaluate does not return the module")
+    kept = []
+    inserted = []  # (position in the patched body, kind) of what the patcher put in: "import" | "disable" | "reset" | "other"
+    for pos, s_ in enumerate(out.body):
+        if id(s_) in original:
+            kept.append(s_)
+        elif isinstance(s_, (ast.Import, ast.ImportFrom)):
+            kept.append(None)
+            inserted.append((pos, "import"))
+        else:
+            txt = ast.unparse(s_) if isinstance(s_, ast.AST) else ""
+            inserted.append((pos, "disable" if txt == "disable_sympy_evaluation()" else ("reset" if txt == "reset_sympy_evaluation()" else "other")))
+    return kept, inserted
 
 
 def _patcher_anchors(run: Run) -> None:
-    m = run.src.need(DOCS + "patch")
-    text = ast.unparse(m.tree)
-    for needle, what in (("module.body.insert(1, _IMPORT_NODE)", "import inserted at index 1"),
-                         ("module.body = module.body[0:last_documented_node + 1]", "truncation after the last documented node"),
-                         ("isinstance(stmt, ast.FunctionDef)", "documented functions"),
-                         ("':laws:sympy-eval::' in s", "sympy-eval opt-out")):
-        if needle not in text:
-            raise AnalysisError(f"C19: docs/patch.py no longer contains `{needle}` ({what}): the checker's replica of the kept-prefix rule is stale")
     # the replica in this checker (kept_prefix, member/docstring association) mirrors two functions of the generator; any change of
     # their code (not of comments/formatting) means the replica must be re-derived: the analysis refuses instead of guessing
     import hashlib
@@ -368,8 +456,25 @@ def check(run: Run) -> None:
             if isinstance(s, ast.ImportFrom) and s.module == "__future__":
                 run.violate("D2", f"{m.name}:__future__", m, s,
                             "`from __future__` import in a documented module: the patcher inserts its own import before it (SyntaxError at compile)")
-        kept, disabled = kept_prefix(m.tree)
+        kept, inserted = kept_prefix(m.tree, run)
         kept_statements += len(kept)
+        # D7 (by evaluation): what the patcher inserts into this module is one import, placed before every call it inserts, and disable/reset calls in
+        # strict alternation - disable, <member>, <docstring>, reset - so that evaluation is switched on again after every formula
+        run.ob("D7", f"insertions:{m.name}", nontrivial=False)
+        kinds = [k_ for _, k_ in inserted]
+        calls = [(p_, k_) for p_, k_ in inserted if k_ in ("disable", "reset")]
+        bad_ins = None
+        if kinds.count("import") > 1 or "other" in kinds or (calls and "import" not in kinds):
+            bad_ins = f"inserts {kinds.count('import')} import(s), {len(calls)} call(s) and {kinds.count('other')} unexpected statement(s)"
+        elif calls and min(p_ for p_, _ in calls) < next(p_ for p_, k_ in inserted if k_ == "import"):
+            bad_ins = "inserts a disable/reset call before the import that defines it (NameError when the page is executed)"
+        elif [k_ for _, k_ in calls] != ["disable", "reset"] * (len(calls) // 2) or len(calls) % 2:
+            bad_ins = f"inserts the calls {[k_ for _, k_ in calls]}: every disable_sympy_evaluation() must be followed by its reset_sympy_evaluation() (evaluation stays off for the rest of the module)"
+        elif any(b_ - a_ not in (2, 3) for (a_, _), (b_, _) in zip(calls[0::2], calls[1::2])):
+            bad_ins = "does not place reset_sympy_evaluation() right after the member (or its docstring) that disable_sympy_evaluation() precedes"
+        if bad_ins and "D7-insertions" not in run.notes:
+            run.notes["D7-insertions"] = m.name
+            run.violate("D7", f"{DOCS}patch:patch_sympy_evaluate:insertions", m, m.tree, f"docs.patch.patch_sympy_evaluate, evaluated on this module, {bad_ins}")
         # D1
         run.ob("D1", m.name)
         for node, construct, msg in exec_incompatibilities(kept):
@@ -427,7 +532,7 @@ def check(run: Run) -> None:
     run.sample({"documented_modules": len(documented), "kept_statements": kept_statements, "resolvable_symbols": len(resolvable), "quantities": len(quantities)})
     # positive fixture for D1
     fx = ast.parse(_D1_FIXTURE)
-    kept, _ = kept_prefix(fx)
+    kept, _ = kept_prefix(fx, run)
     got = sorted(c.split(":")[0] for _, c, _ in exec_incompatibilities(kept))
     if got != ["call", "class", "genexp", "lambda"]:
         raise AnalysisError(f"C19/D1: the scope scanner no longer recognises its positive fixture (got {got})")
